@@ -83,13 +83,21 @@ def views(trace):
     return out
 
 
-def run_all(trace):
-    """all monitors on all deployment segments: {pid: [(global index, message)]}"""
+def run_all(trace, errors=None):
+    """all monitors on all deployment segments: {pid: [(global index, message)]}; a monitor that
+    raises is recorded under its own property only (errors[pid]) and never affects the others"""
+    import traceback
     res = {}
     for v in views(trace):
         for pid, ms in MONITORS.items():
             for m in ms:
-                for (idx, msg) in m(v):
+                try:
+                    found = m(v)
+                except Exception:
+                    if errors is not None:
+                        errors.setdefault(pid, []).append(traceback.format_exc()[-600:])
+                    continue
+                for (idx, msg) in found:
                     res.setdefault(pid, []).append((idx + v.offset, msg))
     return res
 
@@ -313,23 +321,28 @@ def m_C05(v):
                 pre = pd[0] if pd else "unknown"
             raws += ilist(R.get("draws", "[]"))
             # raw draws are successive big-endian words of the seed, re-hashed every 8 draws
+            expect_next = None
             for item in canon.parse_list(R.get("tap", "[]")):
                 seed_hex, idx, raw = item.split(":")
                 seed, idx, raw = bytes.fromhex(seed_hex), int(idx), int(raw)
-                if c["script"]:
-                    continue
                 if len(seed) != 32:
                     out.append((i, f"C05 seed of {len(seed)} bytes"))
+                    expect_next = None
                     continue
+                if expect_next is not None and (seed, idx) != expect_next:
+                    out.append((i, f"C05 generator state ({seed.hex()[:8]}…, {idx}) does not follow the previous draw: expected ({expect_next[0].hex()[:8]}…, {expect_next[1]})"))
                 if idx + 4 > 32:
                     seed, idx = hashlib.sha256(seed).digest(), 0
+                expect_next = (seed, idx + 4)
+                if c["script"]:
+                    continue
                 if int.from_bytes(seed[idx:idx + 4], "big") != raw:
                     out.append((i, f"C05 raw draw {raw} is not the big-endian word at {idx} of the seed"))
             if R.get("ret") == "[0]":
                 nd = v.next_dump(i)
                 if pre not in (None, "unknown") and nd:
                     n, kk = int(pre["last"]), int(pre["nrw"])
-                    if pre["flags"][1] == "1" and pre["status"] == "[]" and len(raws) >= kk:
+                    if pre["flags"][1] == "1" and pre["status"] == "[]" and len(raws) >= kk and kk <= n:
                         exp = sorted(textbook_fy(n, kk, raws))
                         got = sorted(ilist(nd[0]["status"]))
                         if exp != got:
@@ -358,8 +371,13 @@ def m_C07(v):
         ptok, price = price_of(g)
         pays = [(0, 0, c["egld"])] if not c["esdts"] else c["esdts"]
         exact = len(pays) == 1 and pays[0][0] == ptok and pays[0][1] == 0 and pays[0][2] == price * n
-        tix = d.get("tix")
-        alloc = int(tix) if tix and tix.isdigit() else None
+        rg = d.get("range", "none")
+        alloc = None
+        if rg != "none" and "-" in rg:
+            f_, l_ = [int(x) for x in rg.split("-")]
+            alloc = max(l_ - f_ + 1, 0)
+        elif rg == "none":
+            alloc = 0
         if R["st"] == "ok":
             if not exact:
                 out.append((i, f"C07 confirmation of {n} accepted with payment {pays}, price {ptok}:{price}"))
